@@ -141,16 +141,23 @@ CLAIMED["C13"] = {
             "method the type checker declares (TypeLayout::get_property_type, read by abstract interpretation), the run-time name lookup "
             "(Primitive::lookup -> PrimitiveModule accessor -> BuiltInFunction variant) finds a built-in whose implementation arm accepts the "
             "receiver kind, destructures each declared native parameter as exactly that Primitive variant (else unreachable!()), reads no more "
-            "arguments than declared, and returns only kinds that inhabit the declared return type. Index-arithmetic casts and the bounds check "
-            "guarding element pointers are added as clauses (b),(c) when the cast/taint engine lands. Aliasing and contents over histories are not decided.",
+            "arguments than declared, and returns only kinds that inhabit the declared return type; a built-in offered to fixed-shape lists "
+            "moves no element; `==` on lists is whole-slice equality and searching built-ins compare with Primitive::equals (structural == on "
+            "program values occurs only inside the equality implementation). (b) no lossy `as` conversion (narrowing, sign-changing, "
+            "float->int) of a program value in the list/map arms and in index conversion (R-CAST with a backward taint slice to a Primitive). "
+            "(c) index/removal range failures are errors, not panics: decided with C17 (a) (R-PANIC: Vec::remove/insert, Index, bounds checks on "
+            "program-valued indexes are dominated by a range comparison). Aliasing and contents over histories are not decided.",
     "technique": "static analysis: three sibling tables extracted by abstract interpretation of rustc MIR and compared",
     "design_ref": "DESIGN.md §5 C13",
 }
 CLAIMED["C14"] = {
     "text": "Partial by nature: decides signature agreement, not the computed values. (a) For every string / number method the type checker declares, the "
             "run-time lookup resolves the name for that receiver kind to a built-in whose implementation accepts the receiver, destructures each "
-            "declared parameter as the declared kind, and returns only kinds inhabiting the declared return type (e.g. T? -> T or nil). Clauses on "
-            "narrowing casts and narrow-kind arithmetic in the arms are added with the cast/taint engine.",
+            "declared parameter as the declared kind, and returns only kinds inhabiting the declared return type (e.g. T? -> T or nil). (b) no "
+            "lossy `as` conversion (narrowing, sign-changing, float->int saturation / NaN->0) of a program value in the Str*/Generic*/Float*/Byte* "
+            "arms (R-CAST, arms separated by dominators of the variant switch). (c) one unit for string positions: every char-counting operation "
+            "on a program string is listed against the byte-based built-ins (one known finding: s[i]). Range / overflow failures of these "
+            "built-ins being errors rather than panics is decided by C17 (a).",
     "technique": "static analysis: three sibling tables extracted by abstract interpretation of rustc MIR and compared",
     "design_ref": "DESIGN.md §5 C14",
 }
@@ -212,7 +219,7 @@ NOT_APPLICABLE = {
 }
 
 # no hook commits exist; the only commits made to /repo are unguarded "fix:" repairs of genuine defects (see known_findings.json)
-FIX_COMMITS = ["e2ae2a9", "cb2d1e0", "e7575e5", "7bc2f7d", "0af4d83", "e4a4c00", "58e025f", "686179e", "7296d9a", "fa4b68b", "379557f", "4b30646", "0420930", "3aba53e", "2f2a1a1", "40a185d", "926b1f7", "1bc1139", "80aa30b", "cb4346c"]
+FIX_COMMITS = ["e2ae2a9", "cb2d1e0", "e7575e5", "7bc2f7d", "0af4d83", "e4a4c00", "58e025f", "686179e", "7296d9a", "fa4b68b", "379557f", "4b30646", "0420930", "3aba53e", "2f2a1a1", "40a185d", "926b1f7", "1bc1139", "80aa30b", "cb4346c", "34ccc50", "c46bbfb", "52e39f3"]
 
 PENDING = "check not built yet in this round (framework under construction); planned per DESIGN.md §5/§8"
 
